@@ -4,6 +4,7 @@ from __future__ import annotations
 from ..engine import get_tree
 from ..loader import AnalysisError
 from ..report import Result
+from ..terms import const
 from . import table_rules
 
 EXPLANATION = (
@@ -115,6 +116,34 @@ def check(tier: str) -> Result:
         n_term += 1
     if n_term < len(NO_ACTION_ENDS):
         raise AnalysisError(f"only {n_term} of the {len(NO_ACTION_ENDS)} mask-exhaustion environments found")
+    # ---- R8: `step_count` is the number of steps taken (the JobShop clock): 0 after reset, exactly +1 per step -- for
+    # every environment that keeps one and is not already covered by the time-limit induction of C11 (R2/R3 there)
+    from ..normal import linear as _linear
+    from .common import TIME_LIMITED as _TL
+    n_cnt = 0
+    for ea in analyses(tree):
+        if ea.state_cls is None or "step_count" not in tree.fields(ea.state_cls) or ea.cls.name in _TL or ea.cls.name in ("FlatPack", "MultiCVRP"):
+            continue
+        vfg = ea.vfg
+        old = vfg.mk_attr(ea.state, "step_count")
+        new = uncopy(strip_cast(vfg.mk_attr(ea.step_state, "step_count")))
+        site, fn = env_site(ea, "step")
+        alts = [uncopy(strip_cast(l)) for l, _ in leaves(new)]
+        ok = bool(alts) and all(_linear(a) == (old, 1) for a in alts)
+        res.add("C09.R8", site, fn, "State.step_count advances by exactly 1 per step", ok, f"value {txt(new, 4, 100)}")
+        rsite, rfn = env_site(ea, "reset")
+        zs = []
+        for l, _ in leaves(vfg.mk_attr(ea.reset_state, "step_count")):
+            l = uncopy(strip_cast(l))
+            while l.kind == "call" and l.args[1] and ext_name(l) in ("jax.numpy.array", "jax.numpy.asarray", "jax.numpy.int32", "jax.numpy.zeros"):
+                if ext_name(l) == "jax.numpy.zeros":
+                    l = const(0)
+                    break
+                l = uncopy(strip_cast(l.args[1][0]))
+            zs.append(l)
+        verdict = None if any(z.kind != "const" for z in zs) else all(z.args[0] == 0 for z in zs)
+        res.add("C09.R8", rsite, rfn, "State.step_count is 0 after reset", verdict, f"values {[txt(z, 2, 30) for z in zs]}")
+        n_cnt += 1
     res.analysed = {"table_pairings": n, "axis_typed_sites": n_axis, "mask_vs_step_validity": n_b}
     res.assumptions = ["direction names in the code carry their usual meaning (up = previous row, left = previous column)",
                        "PacMan is excluded from the naming convention (its x/y naming is transposed); only sibling agreement is checked there"]
